@@ -66,6 +66,9 @@ def inputs(ctx):
     for _ in range(ctx.n(600, 6000)):
         n = ctx.rng.choice([3, 4, 5, 7, 8, 9, 15, 16, 17, 31, 32, 33, 34, 36, 63, 64, 65, 127, 128, 255, 256, 1000, ctx.rng.randrange(0, 4097)])
         yield ctx.rng.randbytes(n)
+    # beyond every plausible internal block size (a bag of cells of > 64 KiB is hashed in one call)
+    for n in (65535, 65536, 65537, 70001) + ((131071, 131072, 131073, 262145, 1048577) if ctx.thorough else (131073,)):
+        yield ctx.rng.randbytes(n)
     # structured: a single non-zero byte at every position of a 34-byte buffer (address layout)
     for pos in range(34):
         for v in (1, 0x80, 0xff):
